@@ -61,6 +61,11 @@ class C08(AntsSpec):
                     if not tie:
                         return ("discard-while-queue-not-full", "task %d rejected as busy at %d with len(taskChan)=%d, cap=%d" % (
                             k, o["ret"], o["len"], n))
+        for k, (t, o) in enumerate(zip(sc["tasks"], obs)):
+            for iv in o["invs"]:
+                if iv["begin"] > iv["start"]:
+                    return ("timeout-not-in-effect", "task %d: the handler's ctx deadline %d is later than its start %d + the timeout "
+                            "in effect %d (option list %s)" % (k, iv["begin"] + t["teff"], iv["start"], t["teff"], t["opts"]))
         if sc["parks"]:
             return None  # parked goroutines are delayed by the test itself: the timing bound says nothing
         for k, (t, o) in enumerate(zip(sc["tasks"], obs)):
